@@ -187,6 +187,38 @@ def rule_search_bounds(ctx: Ctx, rel: str, qual: str, rid: str = "C14.BOUNDS") -
         ctx.ob(rid, rel, st, f"{qual}: result table {name} = {canon(val)[:60]}", init_nan or preinc, expected="NaN-initialised table, or a scan of max_path_length steps that always ends by break", detail="a direction whose scan ends inside the image without meeting a valid pixel leaves its slot at the initial 0.0, which then enters the median as if it were a valid disparity")
 
 
+
+def rule_directions(ctx: Ctx) -> int:
+    """Every literal direction table of the interpolation kernels is a symmetric star: entries pairwise distinct, the
+    set closed under point reflection and under the row/col exchange, and as many entries as the loop scans."""
+    from ..astx import const_eval, NotConstant
+
+    tree = ctx.tree
+    n = 0
+    for q, fn in sorted(tree.funcs(I).items()):
+        for st in walk_no_nested(fn):
+            if not (isinstance(st, ast.Assign) and isinstance(st.targets[0], ast.Name) and st.targets[0].id == "dirs" and isinstance(st.value, ast.Call) and (dotted(st.value.func) or "") in ("np.array", "numpy.array") and st.value.args):
+                continue
+            try:
+                tab = const_eval(st.value.args[0])
+            except NotConstant as exc:
+                raise AnalysisError(f"{q}: direction table is not a literal ({exc})") from exc
+            vecs = [tuple(float(x) for x in v) for v in tab]
+            n += 1
+            S = set(vecs)
+            dup = sorted(v for v in S if vecs.count(v) > 1)
+            ctx.ob("C14.DIRECTIONS", I, st, f"{q}: {len(vecs)} directions, pairwise distinct", not dup, detail=f"direction(s) {dup} listed twice: a scan direction is missing and its twin weighs double in the median", expected="every direction once")
+            miss = sorted(v for v in S if (-v[0], -v[1]) not in S)
+            ctx.ob("C14.DIRECTIONS", I, st, f"{q}: direction set closed under point reflection", not miss, detail=f"{miss} has no opposite direction: the neighbourhood searched depends on the side", expected="v in dirs => -v in dirs")
+            miss = sorted(v for v in S if (v[1], v[0]) not in S)
+            ctx.ob("C14.DIRECTIONS", I, st, f"{q}: direction set closed under the row/col exchange", not miss, detail=f"{miss} has no transposed direction", expected="(a, b) in dirs => (b, a) in dirs")
+            ctx.ob("C14.DIRECTIONS", I, st, f"{q}: no null direction, steps bounded by one pixel per unit", all(max(abs(v[0]), abs(v[1])) == 1.0 for v in vecs), expected="max(|row step|, |col step|) == 1 for every direction")
+            # the loop scans as many directions as the table holds
+            uses = [l for l in walk_no_nested(fn) if isinstance(l, ast.For) and isinstance(l.iter, ast.Call) and (dotted(l.iter.func) or "") == "range" and len(l.iter.args) == 1 and isinstance(l.iter.args[0], ast.Constant) and any(isinstance(x, ast.Subscript) and canon(x.value) == "dirs" for x in ast.walk(l))]
+            for l in uses:
+                ctx.ob("C14.DIRECTIONS", I, l, f"{q}: `for {src(l.target)} in {src(l.iter)}` scans the {len(vecs)} directions of the table", l.iter.args[0].value == len(vecs), expected=f"range({len(vecs)})")
+    return n
+
 def run(ctx: Ctx) -> None:
     tree = ctx.tree
     for q, (gate, pairs) in KERNELS.items():
@@ -194,8 +226,9 @@ def run(ctx: Ctx) -> None:
         check_function_effects(ctx, "C14.EFFECTS", f"{I}::{q}")
     for key in (f"{I}::McCnnInterpolation.interpolated_disparity", f"{I}::SgmInterpolation.interpolated_disparity"):
         check_function_effects(ctx, "C14.EFFECTS", key)
+    ctx.floor("C14.DIRECTIONS(tables)", rule_directions(ctx), 3)
     n = check_flag_stores(ctx, "C14.FLAGS", [I])
-    ctx.floor("C14.FLAGS", n, 16)
+    ctx.floor("C14.FLAGS", n, 10)
     rule_search_bounds(ctx, IMG, "find_valid_neighbors")
     rule_search_bounds(ctx, I, "McCnnInterpolation.interpolate_mismatch_mc_cnn")
     # sgm mismatch: the 3x3 neighbourhood test is clipped to the image
@@ -249,6 +282,9 @@ SPEC = PropSpec(
 )
 
 MUTANTS = [
+    {"id": "direction-table-sign-flipped", "file": I, "old": "                [1.0, -0.5],\n", "new": "                [1.0, 0.5],\n", "count": 1},
+    {"id": "hoisted-flag-exchange-loses-found-factor", "file": I, "old": "                        out_val[col, row] -= cst.PANDORA_MSK_PIXEL_OCCLUSION * msk[arg_valid]\n                        out_val[col, row] |= cst.PANDORA_MSK_PIXEL_FILLED_OCCLUSION * msk[arg_valid]\n                        out_disp[col, row] = disp[col, row + arg_valid]\n", "new": "                        out_val[col, row] -= cst.PANDORA_MSK_PIXEL_OCCLUSION\n                        out_val[col, row] |= cst.PANDORA_MSK_PIXEL_FILLED_OCCLUSION\n                        out_disp[col, row] = disp[col, row + arg_valid]\n"},
+    {"id": "eq-direction-table-reordered", "kind": "equiv", "edits": [(I, "                [0.0, 1.0],\n                [-0.5, 1.0],\n", "                [-0.5, 1.0],\n                [0.0, 1.0],\n", 1)]},
     {"id": "remove-occlusion-gate", "file": I, "old": "                if (valid[col, row] & cst.PANDORA_MSK_PIXEL_OCCLUSION) != 0:\n                    # interpolate occlusion by moving left", "new": "                if (valid[col, row] & cst.PANDORA_MSK_PIXEL_INVALID) != 0:\n                    # interpolate occlusion by moving left"},
     {"id": "write-inputs-in-place", "file": I, "old": "        out_disp = np.copy(disp)\n        out_val = np.copy(valid)\n\n        # 8 directions : [row, col]\n        dirs = np.array([[0, 1], [-1, 1], [-1, 0], [-1, -1], [0, -1], [1, -1], [1, 0], [1, 1]])\n\n        ncol, nrow = disp.shape\n        for col in range(ncol):\n            for row in range(nrow):\n                # Occlusion", "new": "        out_disp = disp\n        out_val = valid\n\n        # 8 directions : [row, col]\n        dirs = np.array([[0, 1], [-1, 1], [-1, 0], [-1, -1], [0, -1], [1, -1], [1, 0], [1, 1]])\n\n        ncol, nrow = disp.shape\n        for col in range(ncol):\n            for row in range(nrow):\n                # Occlusion"},
     {"id": "swap-4-5", "file": I, "old": "                        out_val[col, row] -= cst.PANDORA_MSK_PIXEL_OCCLUSION\n                        out_val[col, row] |= cst.PANDORA_MSK_PIXEL_FILLED_OCCLUSION", "new": "                        out_val[col, row] -= cst.PANDORA_MSK_PIXEL_OCCLUSION\n                        out_val[col, row] |= cst.PANDORA_MSK_PIXEL_FILLED_MISMATCH"},
